@@ -52,7 +52,7 @@ def _goroutine_inventory():
 _GEN = {"internal/zzverif/c19gen/gen.go": "c19/gen/gen.go", "internal/zzverif/c19gen/reload.go": "c19/gen/reload.go",
         "internal/zzverif/c19gen/bounds.go": "c19/gen/bounds.go"}
 
-# Bounds.  Every driver has its own watchdog (harness/c19/gen/bounds.go: quick 60-120 s, thorough x10) that ends the process
+# Bounds.  Every driver has its own watchdog (harness/c19/gen/bounds.go: quick 45-100 s: k8s 45, signer / tls / httpsig / watchloop 60, misc / rules / fs 100; thorough x10) that ends the process
 # with "C19 DRIVER TIMEOUT: stream ..." - reported by the runner as "stream ...: driver failed"; child processes are limited to
 # 40-45 s.  "timeout" below is the runner's cap for BUILD + run of one stream (also handed to the driver as -test.timeout):
 # generous enough for a cold Go build cache, far below the runner's default of 1800 s.
@@ -83,16 +83,20 @@ P = {
                  "C19_find_chain_terminates", "C19_pinned_exhaustion_is_divergence", "C19_empty_store_iff",
                  "C19_accepted_sizes_have_jwk", "C19_size_tables_agree",
                  "C19_truststore_total", "C19_truststore_partial_rejected_fixed", "C19_truststore_panic_iff",
-                 "C19_ruleset_total", "C19_duplicate_id_rejected", "C19_ruleset_total_typed", "C19_F3_only_ill_typed",
-                 "C19_decode_scopes_panic_iff", "C19_decode_scopes_total_fixed",
-                 "C19_fs_total", "C19_fs_run_alive", "C19_fs_run_last_good", "C19_fs_empty_keeps_state_guarded",
-                 "C19_fs_total_guarded", "C19_fs_exit_iff_guard",
+                 "C19_ruleset_total", "C19_decoder_panic_is_exit", "C19_duplicate_id_rejected", "C19_ruleset_total_typed",
+                 "C19_F3_only_ill_typed", "C19_decode_scopes_panic_iff", "C19_decode_scopes_total_fixed",
+                 "C19_fs_total", "C19_fs_run_alive", "C19_fs_run_all_rejected", "C19_fs_run_last_good",
+                 "C19_fs_empty_changes_state_iff", "C19_fs_total_guarded", "C19_fs_exit_iff_guard",
                  "C19_update_status_panic_iff", "C19_update_status_total_fixed",
                  "C19_request_panic_is_non_success", "C19_composite_extract_panic_iff",
+                 # findings repaired by fix: commits: witnesses on the variant of the code before the commit
                  "C19_F1_pinned_refuted", "C19_F2_pinned_refuted", "C19_F3_pinned_refuted", "C19_F4_pinned_refuted",
-                 "C19_F5_pinned_refuted", "C19_F6_pinned_refuted", "C19_F7_pinned_refuted", "C19_F8_pinned_refuted",
-                 "C19_F9_refuted", "C19_F10_refuted", "C19_F10_truststore_refuted", "C19_F11_refuted", "C19_F12_refuted", "C19_F13_refuted",
-                 "C19_reload_nonvacuous"],
+                 "C19_F5_pinned_refuted", "C19_F6_pinned_refuted", "C19_F7_pinned_refuted",
+                 "C19_F9_pinned_refuted", "C19_F10_pinned_refuted", "C19_F10_truststore_pinned_refuted",
+                 "C19_F12_pinned_refuted", "C19_F13_pinned_refuted",
+                 # the open one: witness on the variant of the code as it is now
+                 "C19_F11_refuted",
+                 "C19_reload_nonvacuous", "C19_ruleset_nonvacuous"],
     "streams": [{
         # key store, trust store and request streams (no in-package access needed) share one driver binary
         "name": "misc", "pkg": "./internal/zzverif/c19gen", "test": "TestVerifC19Misc", "overlay": _KS,
@@ -135,7 +139,8 @@ P = {
         "n_quick": 200, "n_thorough": 4000, "findings": _KF, "env": _ENV, "timeout": _TIMEOUT,
     }],
     "extra_coverage": _goroutine_inventory,
-    "rule": "six drivers / eight streams against the real code. keystore/truststore: compositions of 24 fixture PEM blocks (RSA 1024-4096, EC P-224..P-521, "
+    "rule": "eight drivers (= runner streams: misc, signer, tls, httpsig, watchloop, k8s, rules, fs) with 14 sub-streams (misc: keystore, "
+            "truststore, request, remote, watch, scopes; fs: fs, fs-loop) against the real code. keystore/truststore: compositions of 24 fixture PEM blocks (RSA 1024-4096, EC P-224..P-521, "
             "ed25519, encrypted PKCS#8, public key, certificate chains, expired / wrong-usage / cross-issued certificates, X-Key-ID headers) "
             "truncated at EVERY offset (valid stores) and mutated byte-wise (flip, deleted line, renamed block label, trailing bytes) through "
             "NewKeyStoreFromPEMBytes + Entry.JWK and NewTrustStoreFromPEMBytes; signer/tls/httpsig: the same contents written to the watched "
@@ -159,7 +164,9 @@ P = {
                 "internal/x/pkix/pemx/reader.go", "internal/watcher/watcher_impl.go", "internal/rules/rule_factory_impl.go",
                 "internal/rules/config/parser.go", "internal/rules/config/decoder.go",
                 "internal/rules/mechanisms/authenticators/extractors/composite_extract_strategy.go",
-                "internal/handler/middleware/http/recovery/handler.go", "internal/rules/provider/filesystem/provider.go"],
+                "internal/handler/middleware/http/recovery/handler.go", "internal/rules/provider/filesystem/provider.go",
+                "internal/rules/mechanisms/oauth2/mapstructure_decoder.go", "internal/rules/provider/kubernetes/provider.go",
+                "internal/rules/ruleset_processor_impl.go", "internal/rules/mechanisms/cellib/expression.go"],
     "trusted": ["byte-level parsers (encoding/pem, crypto/x509, youmark/pkcs8, yaml.v3, mapstructure, validator) are not modelled: their "
                 "answer on the bytes of a case is data of the case (per PEM block: parser result; per rule set: decoded tree or error "
                 "or panic); they are exercised only by the truncation / mutation sweeps",
@@ -168,10 +175,12 @@ P = {
                 "model its answer per step is data (ok / error / panic) - only the scopes-matcher decode hook is modelled itself",
                 "x509 chain verification (ValidateChain, pkix.ValidateCertificate), CEL compilation, the mechanism factory (prototype "
                 "lookup + WithConfig), matcher construction and Rule.Hash are oracles (ok / error / panic per call)",
-                "goroutine attribution: OnChanged runs under `go listener.OnChanged` (watcher_impl.go) and the providers' watch loops "
-                "without recover (read from the source; every `go` statement of the tree is listed in the evidence). The drivers call "
-                "the same methods synchronously and catch the panic; four cases per run go end to end through the real fsnotify "
-                "watcher in a child process (file rewritten in place, process survival observed)",
+                "goroutine attribution: OnChanged runs under `go listener.OnChanged` (watcher_impl.go), the providers' watch loops and the "
+                "informer callbacks without recover (read from the source; every `go` statement of the tree is listed in the evidence). "
+                "The drivers call the same methods synchronously and catch the panic; per run 10 key-store rewrites (2 child processes "
+                "x 5 steps) and 9 rule-file steps (1 child process) go through real fsnotify end to end, plus 3 in-process sequences "
+                "through the bare watcher loop",
+                "CEL compilation (cellib/expression.go) is an oracle: compiles / does not compile per `if` string",
                 "httpsig.NewSigner is assumed to succeed for a supported key (observed on every run)",
                 "request goroutines: the recovery middleware and the composite extractor are modelled; for remote documents and tokens "
                 "the model only says that the complete valid document is accepted and a cut / certainly invalid one never ends in "
@@ -179,26 +188,36 @@ P = {
                 "services are left to the C01/C13 streams"],
     "level_text": "Proof (kernel-checked, no axioms) that the modelled loaders of the tree as it is now - key store creation incl. chain "
                   "building, the hot reload of jwt signer / TLS key store / http message signatures, trust store, rule factory over "
-                  "the decoded YAML value tree + rule-set processor, file-system provider event handler - never reach a panic (= "
-                  "process exit on their goroutine) and keep the previous state whenever they reject the input, for ALL inputs of any "
-                  "size, and that ANY sequence of such events leaves the watcher loops alive with the last good content in effect "
-                  "(folds over event lists); for the rule factory under the hypothesis that the decoder and the collaborators taken "
-                  "as data do not panic themselves. Two clauses of the statement hold only outside open, exactly guarded findings: a "
-                  "PARTIAL key / trust store is rejected (C19-F10) and an EMPTY rule file keeps the loaded rules (C19-F11). The models "
-                  "are tied to the Go code by ~6000 (quick) / ~60000 (thorough) systematic + generated cases per run through the real "
-                  "entry points - including the three watcher loops driven through real fsnotify in child processes - comparing the "
-                  "classes the statement fixes (reloaded / rejected / exit site, state kept on rejection, error flag).",
+                  "the decoded YAML value tree + rule-set processor, the scopes-matcher decode hook, file-system provider event handler, "
+                  "kubernetes provider updateStatus - never reach a panic (= process exit on their goroutine) and keep the previous state "
+                  "whenever they reject the input, for ALL inputs of any size; for the rule factory under the hypothesis that the decoder "
+                  "and the collaborators taken as data do not panic themselves. Sequences: any sequence of events leaves the key-store "
+                  "listener and the fs provider loop alive; rejected contents change nothing; a good content after any events is in "
+                  "effect (folds over event lists). A PARTIAL or EMPTY key / trust store is rejected and the state kept for all inputs "
+                  "since 9709c71 (C19_partial_rejected_fixed, C19_truststore_partial_rejected_fixed; C19-F10 pinned). One clause FAILS "
+                  "on the tree as it is: an EMPTY rule file of a loaded source unloads its rules - for every loaded source observed at "
+                  "size 0 (C19-F11, open, C19_F11_refuted, C19_fs_empty_changes_state_iff). No theorem for: malformed tokens / key sets / "
+                  "introspection / authorization responses (expectation table in the remote stream), request lines / headers / bodies "
+                  "(C01/C13; C19_request_panic_is_non_success is a 6-row table), http_endpoint / cloud_blob loops, the gRPC recovery "
+                  "interceptor. The models are tied to the Go code by ~5900 (quick) / ~60000 (thorough) systematic + generated cases "
+                  "per run through the real entry points - including the three watcher loops through real fsnotify (key-store e2e and "
+                  "fs-loop in child processes, the bare watcher loop in-process) - comparing the classes the statement fixes (reloaded / "
+                  "rejected / exit site, state kept on rejection, error flag).",
     "level_note": "PARTIAL by design: totality of the decision logic after byte parsing + systematic fault enumeration (truncation at every "
                   "offset, type confusion and malformed strings at every node, option injection); parsers, crypto and the mechanisms' "
-                  "decoders are data/oracles (see trusted) - only the scopes-matcher hook is modelled. C19-F1..F10 are repaired by fix: "
-                  "commits (pinned behaviour: _pinned_refuted / _refuted theorems; reverting a commit is a VIOLATION with the crashing "
-                  "input). OPEN: C19-F11 (empty rule file unloads the rule set; by design, no repair proposed), C19-F12 and C19-F13 "
-                  "(kubernetes provider updateStatus: status.activeIn without a slash; PatchStatus error that is not a StatusError; "
-                  "fixes/C19-F12.diff, fixes/C19-F13.diff). NOT covered here: request bytes through the assembled services (C01/C13), "
-                  "the gRPC ext_authz recovery interceptor, the http_endpoint / cloud_blob provider loops and the kubernetes informer "
-                  "machinery itself (C18; their rule-set bytes go through the ParseRules + processor path driven here); remote "
-                  "documents and tokens have an expectation table, no theorem.",
+                  "decoders are data/oracles (see trusted) - only the scopes-matcher hook is modelled. C19-F1..F10, F12, F13 are repaired "
+                  "by fix: commits (pinned behaviour: _pinned_refuted theorems; reverting a commit is a VIOLATION with the crashing "
+                  "input). C19-F8 (checkKeys) is a fact about the parser = DATA of a case: its repair is witnessed by the rules stream / "
+                  "corpus only, no theorem distinguishes the pinned from the current tree (C19_decoder_panic_is_exit holds for every "
+                  "variant). OPEN: C19-F11 only - an empty rule file unloads the rule set. It is a conflict between the readings of two "
+                  "property statements, not a defect of the code: C19's quantifier includes truncation at offset 0 and demands that the "
+                  "loaded state stays, C18's statement demands that emptied sources are unloaded; the provider follows C18 by design, no "
+                  "repair is proposed. 'Previous state stays' is true by construction of the model (Err => Kept st) and tested by the "
+                  "streams. NOT covered here: request bytes through the assembled services (C01/C13), the gRPC ext_authz recovery "
+                  "interceptor, the http_endpoint / cloud_blob provider loops and the kubernetes informer machinery itself (C18; their "
+                  "rule-set bytes go through the ParseRules + processor path driven here).",
     "assumptions": ["drivers read private fields of jwtSigner / tlsx.keyStore / HTTPMessageSignatures / repository / Provider (in-package): "
-                    "renaming them breaks the driver, not the property",
+                    "renamed private fields are rebound by harness/tools/rebind; a removed field breaks the driver (reported as "
+                    "correspondence-broken with the stream named), not the property",
                     "fixtures (corpus/C19/fixtures.pem) contain certificates valid until 2120; an expired-on-purpose one is dated 2021"],
 }
